@@ -2,6 +2,7 @@ import MorfuseModel.Sched.NotifyLemmas
 import MorfuseModel.Sched.MachineHostProps
 import MorfuseModel.Sched.MachineNotifyTraceHost
 import MorfuseModel.Sched.MachineLifeTraceHost
+import MorfuseModel.Sched.MachineCalls
 /-!
 # C07 — waittill / notify: no lost, early or duplicate wake-ups  (table layer)
 
@@ -447,5 +448,51 @@ theorem C07_trace_destroyed_never_wakes {s : State} (h : Reachable s) :
       have hm : t ∈ (absT s).ids := List.mem_map.2 ⟨(t, th), thFind_some_mem hf, rfl⟩
       exact ((mem_after opsT t pool0T_good hT).1 hm).2 hd
   exact ⟨hnone, fun fuel name d => C07_machine_destroyed_not_woken fuel s t name d (fun th hf => by rw [hnone] at hf; cases hf)⟩
+
+/-! ## Call level: what happens inside the very call of a notify / a removal
+
+The statements tie a particular `Unregister(name)` / `UnregisterAll` to what is true when *that call* returns; the
+loop invariant is "processed ⇒ no VM", kept by everything that runs afterwards inside the call (later iterations,
+nested executions of woken waiters) because no function of the machine ever gives a VM back (`hvAll`).  "No VM"
+(`NoVM`: no record, or a record whose `m_ScriptVM` is gone) is what makes every later `StoppedWaitFor`, timer
+resumption or execution of that thread impossible (`C07_machine_destroyed_not_woken`). -/
+
+/-- **`endon` destroys, call level.**  `o notify n` (`Unregister(n)` on `o`) called in a state satisfying the machine
+    invariant: when the call returns (unless out of fuel) every thread that was listed under `endon (o, n)` at the
+    moment of the call (and had a record; the notifying listener itself is handled by the C++ special case) has no
+    VM — it was deleted by the `endon` loop of this call, before any waiter of `(o, n)` was woken, and nothing that
+    ran afterwards inside the call revived it. -/
+theorem C07_call_endon_destroys (fuel : Nat) {C W : List Nat} {s : State} (h : Inv C W none s) (o n : Nat)
+    (listeners : List Nat) (he : Tbl.hasOwner s.endOn o = true) (hf : Tbl.find s.endOn (o, n) = some listeners) :
+    (unregister (fuel + 2) s o n).outOfFuel = true ∨
+      ∀ l ∈ listeners, l ≠ o → (∃ th, s.th? l = some th) →
+        ∀ th', (unregister (fuel + 2) s o n).th? l = some th' → th'.hasVM = false :=
+  unregister_endon_destroys fuel h o n listeners he hf
+
+/-- **A removed source destroys its waiters, call level.**  `UnregisterAll` of `src` (every listener's destructor:
+    object removal, thread destruction) called in a state satisfying the machine invariant: when the call returns
+    (unless out of fuel) every listener that was registered on `src` — under any name — when the kill loop of this
+    call started (i.e. after its `Unregister(0)`, which re-times the `waitthread` callers) has no VM: it was deleted,
+    never woken.  (A listener registered in `s` that is no longer registered after `Unregister(0)` was cancelled or
+    destroyed by that cascade.) -/
+theorem C07_call_removed_source_destroys_waiters (fuel : Nat) {C W : List Nat} {s : State} (h : Inv C W none s)
+    (src : Nat) :
+    (unregisterAll (fuel + 3) s src).outOfFuel = true ∨
+      ∀ n x, x ∈ Tbl.getD (unregister (fuel + 2) s src 0).notify (src, n) →
+        ∀ th', (unregisterAll (fuel + 3) s src).th? x = some th' → th'.hasVM = false := by
+  rw [unregisterAll_succ]
+  have P := presAll (fuel + 2)
+  refine ((iAll (fuel + 2)).ur C W s src 0 h (Or.inr (Or.inl rfl))).bind ?_ (fun p => ?_)
+  · exact (Pres.of_eq rfl rfl rfl : Pres (unregister (fuel + 2) s src 0)
+      { (unregister (fuel + 2) s src 0) with endOn := Tbl.removeOwner (unregister (fuel + 2) s src 0).endOn src }).trans
+      (uaRest_pres P.swf P.sn _ _)
+  exact uaRest_destroys_waiters fuel (p.1.setEndOn _ (fun o ho => Or.inl (Tbl.hasOwner_removeOwner ho))) src
+
+/-- non-vacuity: a thread that registered `endon` on `level` and then waits is destroyed by the notify of another
+    thread, which proceeds (`m9`) -/
+example : (runOps {} [.script [[.thread 1, .wait 5, .notify 50 7, .mark 9], [.endon 50 7, .wait 100, .mark 2]] [0, 0],
+      .call 0 [], .step 5]).out = ["m9"] ∧
+    (runOps {} [.script [[.thread 1, .wait 5, .notify 50 7, .mark 9], [.endon 50 7, .wait 100, .mark 2]] [0, 0],
+      .call 0 [], .step 5]).threads = [] := by decide +kernel
 
 end Morfuse.Sched
